@@ -657,6 +657,8 @@ class Exec:
     def global_lv(self, st, q, rd):
         q = models.GLOBAL_ALIAS.get(q, q)
         ct = parse_type(rd.get('type'))
+        if q not in models.CONST_GLOBALS and ('vfps::physcons::' + str(q)) in models.CONST_GLOBALS and ct.kind == 'float':
+            q = 'vfps::physcons::' + q       # dump without namespace context (main)
         if q in models.CONST_GLOBALS:
             return RealV(R(models.CONST_GLOBALS[q]), ct)
         if ct.kind in ('int', 'float'):
@@ -1269,12 +1271,21 @@ class Exec:
             return self.as_lv(r) if want_lv else self.as_rv(r, st)
         # 3. inline a repository function from its own AST
         fdecl = self.find_def(q, rd)
+        owner = None
+        if fdecl is None and self.aux_tus:
+            fdecl, owner = self.find_def_aux(objn, rd, method)
         if fdecl is not None:
             if self.inline_depth >= 4:
                 raise ExtractionError(f'{self.unit}: inlining depth exceeded at {q}')
-            r = self.inline(fdecl, n, st, objn, argn, q)
+            saved_tu = self.tu
+            if owner is not None:
+                self.tu = owner
+            try:
+                r = self.inline(fdecl, n, st, objn, argn, q)
+            finally:
+                self.tu = saved_tu
             return self.as_lv(r) if want_lv else self.as_rv(r, st)
-        raise ExtractionError(f'{self.unit}: call to {q} has no contract, model or inlinable definition (line {self.curline})')
+        raise ExtractionError(f'{self.unit}: call to {q or rd.get("name")} has no contract, model or inlinable definition (line {self.curline})')
 
     def as_lv(self, r):
         if isinstance(r, ObjRef):
@@ -1300,6 +1311,28 @@ class Exec:
                 if f.get('previousDecl') == rd.get('id') or f.get('id') == rd.get('id'):
                     return f
         return None
+
+    aux_tus = None
+
+    def find_def_aux(self, objn, rd, method):
+        """definition of a repository function looked up by qualified name in another dump of the same file"""
+        name = rd.get('name') or method
+        cands = []
+        if objn is not None:
+            t = objn.get('type', {}).get('desugaredQualType') or objn.get('type', {}).get('qualType', '')
+            t = strip_quals(t).rstrip('*&').strip()
+            t = strip_quals(t)
+            cands.append(f'{t}::{name}')
+            if not t.startswith('vfps::'):
+                cands.append(f'vfps::{t}::{name}')
+        else:
+            cands += [f'vfps::{name}', name]
+        for tu in self.aux_tus:
+            for c in cands:
+                fs = tu.funcs.get(c, [])
+                if len(fs) == 1:
+                    return fs[0], tu
+        return None, None
 
     def inline(self, fdecl, n, st, objn, argn, q):
         """execute the callee's own AST with parameters bound (accessors defined in /repo/inc)"""
@@ -1416,7 +1449,15 @@ class Exec:
             self.declare(d, st)
         return [(st, None)]
 
+    decl_assume = None
+
     def declare(self, d, st):
+        self.declare0(d, st)
+        if self.decl_assume and d.get('name') in self.decl_assume and not self.inline_depth:
+            cx = Ctx(self, st, self.entry, self.args0)
+            st.assume(self.decl_assume[d['name']](cx))
+
+    def declare0(self, d, st):
         vid = d['id']
         st.names[vid] = d.get('name', '')
         if self.scope_stack:
